@@ -18,7 +18,10 @@ simple selectors to a compound"):
        arguments are compared reversed;
  (v)   Pseudo::is_superselector answers the constant `false` only on a path guarded by a test that
        `self` and the other pseudo differ (`self.F != b.F`): any other constant `false` is a pseudo that
-       is not a superselector of itself (necessary for reflexivity).
+       is not a superselector of itself (necessary for reflexivity);
+ (vi)  pseudo::Arg::is_superselector, a `match (self, other)`, has for EVERY variant of `Arg` an
+       unguarded diagonal arm `(V, V)` ahead of the catch-all whose body is not the constant `false`
+       (exhaustiveness of the diagonal; a variant without one is never its own superselector).
 """
 from lib import ast as A
 
@@ -277,3 +280,66 @@ def run(ctx, F):
                  "a pseudo selector reaching that path is not a superselector of itself, so is-superselector is not reflexive", where=ps_["path"])
     else:
         ctx.ok("F5-pseudo-reflexive", "Pseudo::is_superselector: `false` only where self and the other differ", None)
+
+    # ---------------------------------------------------------------- (vi) Arg::is_superselector covers the diagonal
+    arg_enum = tree.enum("css::selectors::pseudo::Arg")
+    am = tree.one_method("css::selectors::pseudo::Arg", "is_superselector")
+    a_other = [p["pat"]["n"] for p in am["sig"]["params"] if p.get("pat") and p["pat"].get("n")][0]
+    the_match = None
+    for n in A.walk(am["body"]):
+        if n.get("e") == "match":
+            on = A.strip(n["on"])
+            if on.get("e") == "tuple" and len(on["xs"]) == 2:
+                names = sorted(A.show(x).replace(" ", "").lstrip("&*") for x in on["xs"])
+                if names == sorted(["self", a_other]):
+                    the_match = n
+                    break
+    if the_match is None:
+        ctx.anchor_lost("Arg::is_superselector", "no `match (self, other)` over both arguments")
+    else:
+        def variant_of(pt):
+            while pt.get("p") == "ref":
+                pt = pt.get("x") or pt.get("pat") or {}
+            if pt.get("p") in ("tstruct", "path", "struct"):
+                return (pt.get("v") or "").split("::")[-1]
+            return None
+
+        def alts(pt):
+            if pt.get("p") == "or":
+                for x in pt["xs"]:
+                    yield from alts(x)
+            else:
+                yield pt
+
+        covered = {}
+        for arm in the_match["arms"]:
+            body = A.strip(unblock(arm["body"]))
+            is_false = body.get("e") == "lit" and body.get("t") == "bool" and body.get("v") is False
+            stop = False
+            for pt in alts(arm["pat"]):
+                if pt.get("p") in ("wild", "bind"):
+                    stop = arm.get("guard") is None
+                    continue
+                if pt.get("p") == "tuple" and len(pt["xs"]) == 2:
+                    v1, v2 = variant_of(pt["xs"][0]), variant_of(pt["xs"][1])
+                    if v1 and v1 == v2 and v1 not in covered:
+                        covered[v1] = (not is_false) and arm.get("guard") is None
+                    else:
+                        # `(V, _) => <computed>` / `(_, V) => <computed>`: the diagonal case is decided by an
+                        # expression this rule does not evaluate; only a constant `false` there is a miss
+                        half = [v for v, o in ((v1, pt["xs"][1]), (v2, pt["xs"][0])) if v and o.get("p") in ("wild", "bind")]
+                        for v in half:
+                            if v not in covered and arm.get("guard") is None:
+                                covered[v] = not is_false
+            if stop:
+                break
+        variants = [v["name"] for v in arg_enum["variants"]]
+        ctx.floor("variants of pseudo::Arg", len(variants), 3)
+        missing = [v for v in variants if not covered.get(v)]
+        key = "Arg::is_superselector: every variant has a diagonal arm that is not `false`"
+        if missing:
+            ctx.fail("F5-arg-diagonal", key,
+                     f"pseudo::Arg::is_superselector has no unguarded `(Self::{missing[0]}(..), Self::{missing[0]}(..))` arm with a non-`false` body before the catch-all (missing: {', '.join(missing)}): "
+                     "a pseudo selector whose argument is of that kind is not a superselector of itself (reflexivity)", where=am["path"])
+        else:
+            ctx.ok("F5-arg-diagonal", key, None)
